@@ -205,7 +205,12 @@ def run(repo, rep, tier):
                 rep.violation("R-RANGE-REFUSE", site, "range-2000-4000", msg)
             info, err = extract(repo, p, q)
             if info is None:
-                rep.violation("R-SIB", site, "prologue-skeleton", err)
+                if "found 0" in err or "pairs 0" in err:
+                    # the prologue is not written in a form this rule reads (moved into a helper object, other normalisation of the anomaly):
+                    # no evidence either way; the table-relation rules below still examine whatever constants are found
+                    rep.inconcl("R-SIB", site, "prologue skeleton not read: " + err)
+                else:
+                    rep.violation("R-SIB", site, "prologue-skeleton", err)
                 continue
             # D3 skeleton consistency
             probs = []
@@ -300,7 +305,22 @@ def perihelion(repo, rep):
         ks = [x for x in T.walk(t) if x[0] == "phi" and x[1] == T.sym("PERI") and find_calls(x[2], "round") and find_calls(x[3], "round")]
         ks = [x for x in ks if x[2][0] == "call" and x[2][1] == "round"]
         if not ks:
-            rep.violation("R-SIB", site, "k-selection", "period count is not selected as round(k) for perihelion / round(k + 0.5) - 0.5 for aphelion")
+            # decided by partial evaluation when the selection is not written as `round(k) if perihelion else round(k + 0.5) - 0.5`:
+            # with the flag bound to True / False the count must be round(A) and round(A + 1/2) - 1/2 of one and the same linear A
+            try:
+                tp = ret_term(repo, p, q, arg_terms={names[0]: ("epoch", T.sym("E")), names[1]: ("bool", True)})
+                ta = ret_term(repo, p, q, arg_terms={names[0]: ("epoch", T.sym("E")), names[1]: ("bool", False)})
+                rp = set(x[2] for x in T.walk(tp) if x[0] == "call" and x[1] == "round" and len(x) == 3)
+                ra = set(x for x in T.walk(ta) if x[0] == "add" and any(y[0] == "call" and y[1] == "round" for y in x[1:])
+                         and T.num(Fraction(-1, 2)) in x[1:] and len(x) == 3)
+                okk = len(rp) == 1 and any(T.add(T.call("round", T.add(next(iter(rp)), T.num(Fraction(1, 2)))), T.num(Fraction(-1, 2))) == x for x in ra)
+            except AnalysisError:
+                okk = None
+            if okk:
+                rep.ok("R-SIB", site + ":k", "period count: round(A) for perihelion, round(A + 0.5) - 0.5 for aphelion (flag bound to True / False)")
+                n += 1
+            else:
+                rep.inconcl("R-SIB", site, "selection of the period count not read (neither the conditional form nor its two partial evaluations)")
             continue
         K = ks[0]
         A = K[2][2]
